@@ -151,15 +151,27 @@ func classify(view messageBackupReadView, key ChannelKey, k, v []byte) VerifC11S
 			return e
 		}
 		e.Kind, e.A, e.B, e.Ok = 2, record.manifest.BaseOffset, record.manifest.LastOffset, true
+		// an error of the pair load (the partner row does not decode, or the by-last / by-command
+		// pair is itself inconsistent) is returned as it is by snapshotBackupSystemEntries:
+		// reported like a decode error of this row (Kind 0 + class)
+		pairErr := func(err error) VerifC11SysEntry {
+			e.Kind, e.A, e.B, e.Ok = 0, 0, 0, false
+			e.Err = VerifC11ErrClass(err)
+			return e
+		}
 		if lastOffset, ok := decodeProposalByLastKey(key, k); ok {
 			if lastOffset != record.manifest.LastOffset {
 				e.Ok = false
-			} else if paired, present, err := loadDurableProposalPairByLast(view, key, lastOffset); err != nil || !present || paired != record {
+			} else if paired, present, err := loadDurableProposalPairByLast(view, key, lastOffset); err != nil {
+				return pairErr(err)
+			} else if !present || paired != record {
 				e.Ok = false
 			}
 		} else if commandID, ok := decodeProposalByCommandKey(key, k); !ok || commandID != record.manifest.CommandID {
 			e.Ok = false
-		} else if paired, present, err := loadDurableProposalFrom(view, encodeProposalByLastKey(key, record.manifest.LastOffset)); err != nil || !present || paired != record {
+		} else if paired, present, err := loadDurableProposalFrom(view, encodeProposalByLastKey(key, record.manifest.LastOffset)); err != nil {
+			return pairErr(err)
+		} else if !present || paired != record {
 			e.Ok = false
 		}
 	case bytes.HasPrefix(k, encodeEntryIdentityPrefix(key)):
